@@ -107,6 +107,7 @@ const FAULTS: &[&str] = &[
   "interface:several-members-missing",
   "interface:second-instantiation-unsatisfied",
   "wrong-type:same-named-class-of-another-module",
+  "match:struct-pattern-case-missing",
 ];
 
 pub fn fault_kinds() -> &'static [&'static str] {
@@ -333,6 +334,58 @@ pub fn inject(p: &mut ProgramIr, t: &mut Tape, kind_idx: usize) -> Option<Fault>
         iface.members.push(Member { name: format!("{}{i}", ["extra", "more", "also", "other", "aMemberWithAVeryLongName", "yetAnotherRatherLongName"][t.choose(6)]), is_method, is_public: true, tparams: vec![], params: vec![], ret: Ty::Int, body: None });
       }
       return Some(Fault { kind, site: format!("{}+{n}", implementer.1), module: implementer.0 });
+    }
+    "match:struct-pattern-case-missing" => {
+      // a struct with an enum-typed field, destructured by field name with a variant sub-pattern: a match
+      // that lacks the arm of one variant, or a `let` whose pattern is refutable
+      let mi = t.choose(p.modules.len());
+      let path = p.modules[mi].path.clone();
+      let shape_ty = Ty::Class(path.clone(), "FaultShape".into(), vec![]);
+      let holder_ty = Ty::Class(path.clone(), "FaultHolder".into(), vec![]);
+      let variants = ["FCircle", "FSquare", "FDot"];
+      let shape = Class { name: "FaultShape".into(), is_interface: false, private: false, tparams: vec![], typedef: TypeDef::Enum(variants.iter().map(|v| (v.to_string(), vec![Ty::Int])).collect()), implements: vec![], members: vec![] };
+      let scale_first = t.bool(1, 2);
+      let mut fields = vec![("shape".to_string(), shape_ty.clone(), true), ("scale".to_string(), Ty::Int, true)];
+      if scale_first {
+        fields.reverse();
+      }
+      let arm = |v: &str, k: usize| -> (Pat, Expr) {
+        let r = format!("fr{k}");
+        let mut elems = vec![("shape".to_string(), Pat::Variant(v.to_string(), vec![Pat::Var(r.clone(), Ty::Int)])), ("scale".to_string(), Pat::Var("scale".into(), Ty::Int))];
+        if k % 2 == 1 {
+          elems.reverse();
+        }
+        (Pat::Struct(elems), Expr::new(Ty::Int, EK::Binary("+", Box::new(Expr::new(Ty::Int, EK::Var(r))), Box::new(Expr::new(Ty::Int, EK::Var("scale".into()))))))
+      };
+      let h = Expr::new(holder_ty.clone(), EK::Var("h".into()));
+      let flavour = t.choose(3);
+      let body = match flavour {
+        // one variant of three has no arm
+        0 => {
+          let missing = t.choose(3);
+          let arms: Vec<(Pat, Expr)> = (0..3).filter(|i| *i != missing).map(|i| arm(variants[i], i)).collect();
+          Expr::new(Ty::Int, EK::Match { scrut: Box::new(h), arms })
+        }
+        // a single arm
+        1 => Expr::new(Ty::Int, EK::Match { scrut: Box::new(h), arms: vec![arm(variants[t.choose(3)], 0)] }),
+        // refutable let
+        _ => {
+          let (pat, e) = arm(variants[t.choose(3)], t.choose(2));
+          Expr::new(Ty::Int, EK::Block { stmts: vec![Stmt::Let { pat, annot: None, init: h }], last: Some(Box::new(e)) })
+        }
+      };
+      let holder = Class {
+        name: "FaultHolder".into(),
+        is_interface: false,
+        private: false,
+        tparams: vec![],
+        typedef: TypeDef::Struct(fields),
+        implements: vec![],
+        members: vec![Member { name: "area".into(), is_method: false, is_public: true, tparams: vec![], params: vec![("h".into(), holder_ty)], ret: Ty::Int, body: Some(body) }],
+      };
+      p.modules[mi].classes.push(shape);
+      p.modules[mi].classes.push(holder);
+      return Some(Fault { kind, site: format!("FaultHolder.area/{}", ["match-one-arm-missing", "match-single-arm", "refutable-let"][flavour]), module: path });
     }
     "interface:second-instantiation-unsatisfied" => {
       // a class that implements Cmp<Self> additionally claims Cmp<Str> / Cmp<int> (directly, or through a
